@@ -46,6 +46,11 @@ BLOCKS = {
         gen=lambda r, ints: {"PS": r.randint(-2, 2) if ints else r.randint(-128, 128) / 64.0},
         make=lambda a: lk.PhaseShifter(), kw=lambda a: {"PS": a["PS"]},
         term=lambda a: "PhaseShifter %s" % rlit(a["PS"]), n=2),
+    # the shift given ONLY through the constructor default (renamed parameter, nothing passed at solve time)
+    "PhaseShifter_default": dict(
+        gen=lambda r, ints: {"PS": r.randint(-2, 2) if ints else r.randint(-128, 128) / 64.0},
+        make=lambda a: lk.PhaseShifter(param_name="PH", param_default=a["PS"]), kw=lambda a: {},
+        term=lambda a: "PhaseShifter %s" % rlit(a["PS"]), n=2),
     "PushPullPhaseShifter": dict(
         gen=lambda r, ints: {"PS": r.randint(-2, 2) if ints else r.randint(-128, 128) / 64.0},
         make=lambda a: lk.PushPullPhaseShifter(), kw=lambda a: {"PS": a["PS"]},
@@ -107,7 +112,7 @@ BLOCKS = {
         term=lambda a: "PolRot %s" % rlit(a["ang"]), n=4),
 }
 
-PINS = {'Waveguide': ['a0', 'b0'], 'PhaseShifter': ['a0', 'b0'], 'PushPullPhaseShifter': ['a0', 'b0', 'a1', 'b1'], 'TH_PhaseShifter': ['a0', 'b0'], 'Attenuator': ['a0', 'b0'], 'LinearAttenuator': ['a0', 'b0'], 'PerfectMirror': ['a0'], 'Mirror': ['a0', 'b0'], 'BeamSplitter': ['a0', 'a1', 'b0', 'b1'], 'BeamSplitterT': ['a0', 'a1', 'b0', 'b1'], 'UserWaveguide': ['a0_tm', 'b0_tm', 'a0_te', 'b0_te'], 'Splitter1x2': ['a0', 'b0', 'b1'], 'PolRot': ['a0_pol0', 'a0_pol1', 'b0_pol0', 'b0_pol1']}
+PINS = {'Waveguide': ['a0', 'b0'], 'PhaseShifter': ['a0', 'b0'], 'PhaseShifter_default': ['a0', 'b0'], 'PushPullPhaseShifter': ['a0', 'b0', 'a1', 'b1'], 'TH_PhaseShifter': ['a0', 'b0'], 'Attenuator': ['a0', 'b0'], 'LinearAttenuator': ['a0', 'b0'], 'PerfectMirror': ['a0'], 'Mirror': ['a0', 'b0'], 'BeamSplitter': ['a0', 'a1', 'b0', 'b1'], 'BeamSplitterT': ['a0', 'a1', 'b0', 'b1'], 'UserWaveguide': ['a0_tm', 'b0_tm', 'a0_te', 'b0_te'], 'Splitter1x2': ['a0', 'b0', 'b1'], 'PolRot': ['a0_pol0', 'a0_pol1', 'b0_pol0', 'b0_pol1']}
 
 
 UNFOLD = ("cbv [Waveguide PhaseShifter TH_PhaseShifter Attenuator LinearAttenuator PerfectMirror PushPull "
